@@ -18,7 +18,7 @@ theorem subsStopAllFor_clears (s : Stack) (i : Nat) (x : Instance) (a : Addr) (h
     unfold getInst at hx
     exact (List.getElem?_eq_some_iff.mp hx).1
   have key : ∀ (es : List (TSEntry SubKey)) (st : Stack) (y : Instance), st.getInst i = some y →
-      (es.foldl (fun s e => (s.cancelTimer isSubExpiry e.timer).emit (.unsubscribed i e.key a)) st).getInst i = some y := by
+      (es.foldl (fun s e => (s.cancelTimer (isSubExpiryFor i a e.key) e.timer).emit (.unsubscribed i e.key a)) st).getInst i = some y := by
     intro es; induction es with
     | nil => intro st y h; exact h
     | cons e t ih => intro st y h; rw [List.foldl_cons]; exact ih _ y h
